@@ -34,6 +34,9 @@ type c24Case struct {
 	History []uiLine   `json:"history,omitempty"`
 }
 
+// c24Wrote: whether the last judged render wrote at least one line (single-threaded per worker process).
+var c24Wrote bool
+
 type stubView struct{ min, max int }
 
 func (s stubView) MinLines() int { return s.min }
@@ -55,6 +58,7 @@ func segsOf(ws [][]uint32) []prog.Seg {
 
 // render prints v with n granted lines and judges the output.
 func c24Judge(c c24Case, v view.View, n int, what string) *eng.Fail {
+	c24Wrote = false
 	var err error
 	var p any
 	var stack string
@@ -68,6 +72,7 @@ func c24Judge(c c24Case, v view.View, n int, what string) *eng.Fail {
 		return nil // an error is a regular answer
 	}
 	got := uix.LinesWritten(out)
+	c24Wrote = got > 0
 	if got > n {
 		return &eng.Fail{Sig: c.Kind + " writes-more-than-granted", What: fmt.Sprintf("%s: granted %d lines, wrote %d", what, n, got), Case: c}
 	}
@@ -156,6 +161,7 @@ func c24Run(c c24Case) *eng.Fail {
 		if r.Err != nil {
 			return nil
 		}
+		c24Wrote = uix.LinesWritten(r.Out) > 0
 		if got := uix.LinesWritten(r.Out); got > c.N {
 			return &eng.Fail{Sig: "app writes-more-than-screen " + s.ModeKind(), What: fmt.Sprintf("%s screen at height %d wrote %d lines", s.ModeKind(), c.N, got), Case: c}
 		}
@@ -175,9 +181,12 @@ func init() {
 				if !r.Mine(item) {
 					return
 				}
+				c24Wrote = false
 				f := c24Run(c)
 				r.Eval(1)
-				r.Nontrivial(1)
+				if c24Wrote {
+					r.Nontrivial(1)
+				}
 				if f != nil {
 					r.Report(f)
 					r.Outcome(f.Sig)
